@@ -1,6 +1,7 @@
 """C02 — literal values parse to exactly what Python evaluates them to."""
 import ast
 
+import core
 import parsedom
 from encode import encode
 
@@ -53,7 +54,9 @@ def gen_string_piece(rng, is_bytes):
   body = rng.choice(['', 'a', 'hello world', 'it\\\'s', 'tab\\there', 'raw\ttab', '\t', 'q\\"q', '\\\\', '#not a comment', 'x' * 30,
                      '\\x41', '\\n', "'" if rng.random() < 0.5 else '"',
                      # backslash sequences Python does not know: kept as written (Python only warns about them)
-                     '\\d+\\.\\d*', 'a\\ b', '\\w', '\\400', 'C:\\path\\q', '\\%s'])
+                     '\\d+\\.\\d*', 'a\\ b', '\\w', '\\400', 'C:\\path\\q', '\\%s',
+                     # characters that end a line for str.splitlines but not for Python: part of the string
+                     'form\x0cfeed', 'v\x0bt', 'ls\u2028ps\u2029', 'nel\x85', 'fs\x1cgs\x1drs\x1e'])
   quote = rng.choice(["'", '"', "'''", '"""'])
   if quote[0] in body and '\\' + quote[0] not in body:
     body = body.replace(quote[0], '')
@@ -163,7 +166,40 @@ NEAR_MISSES = [
 ]
 
 
+# a literal bound over an equal literal of another type (or another zero sign, other element / key types): what is
+# stored afterwards is the value and type of the *last* text - a finite table on the real code
+REBIND_PAIRS = [('1', 'True'), ('True', '1'), ('2', '2.0'), ('0.0', '-0.0'), ('(1, 2)', '(1.0, 2.0)'), ("{1: 'a'}", "{True: 'a'}"),
+                ("'a'", "'a'"), ('[1, 0]', '[True, False]'), ('0', 'False'), ('1.0', '1')]
+REBIND_CASES = [{'dom': 'parse', 'kind': 'rebind', 'a': a, 'b': b, 'how': how, 'text': '', 'value_text': b}
+                for a, b in REBIND_PAIRS for how in ('one_text', 'two_calls', 'api_then_text')]
+
+
+def run_rebind_case(case):
+  gin = core.fresh_gin()
+  g = {'__name__': 'rb2'}
+  exec('def f(x=None):\n  return x\n', g)  # pylint: disable=exec-used
+  gin.configurable(g['f'])
+  a, b = case['a'], case['b']
+  try:
+    if case['how'] == 'one_text':
+      gin.parse_config(f'rb2.f.x = {a}\nrb2.f.x = {b}\n')
+    elif case['how'] == 'two_calls':
+      gin.parse_config(f'rb2.f.x = {a}\n')
+      gin.parse_config(f'rb2.f.x = {b}\n')
+    else:
+      gin.bind_parameter('rb2.f.x', ast.literal_eval(a))
+      gin.parse_config(f'rb2.f.x = {b}\n')
+    got = gin.query_parameter('rb2.f.x')
+    facts = {'got': repr(got) + ':' + type(got).__name__}
+  except Exception as e:  # pylint: disable=broad-except
+    facts = {'got': f'raised {type(e).__name__}: {e}'[:200]}
+  want = ast.literal_eval(b)
+  facts['want'] = repr(want) + ':' + type(want).__name__
+  return {'stmts': [], 'err': None, 'python': None, 'facts': facts}
+
+
 def gen_cases(rng, tier, boost=1):
+  yield from REBIND_CASES
   n = (1500 if tier == 'quick' else 60000) * boost
   for k in range(n):
     stats = {}
@@ -188,6 +224,8 @@ def gen_cases(rng, tier, boost=1):
 
 
 def run_impl(case):
+  if case['kind'] == 'rebind':
+    return run_rebind_case(case)
   import warnings
   out = parsedom.impl_statements(case['text'])
   try:
@@ -205,6 +243,8 @@ def to_driver(case, impl):
 
 
 def compare(case, impl, model):
+  if case['kind'] == 'rebind':
+    return None
   return parsedom.compare(impl, model)
 
 
@@ -220,6 +260,11 @@ def _canon_dicts(x):
 
 
 def oracle(case, impl):
+  if case['kind'] == 'rebind':
+    f = impl['facts']
+    if f['got'] != f['want']:
+      return (f'{case["b"]} bound over {case["a"]} ({case["how"]}): the parameter now holds {f["got"]}, the text says {f["want"]}')
+    return None
   if case['kind'] == 'lit':
     py = impl['python']
     if 'err' in py:
@@ -242,6 +287,9 @@ def nontrivial(case, impl):
 
 
 def tally(stats, case, impl):
+  if case['kind'] == 'rebind':
+    stats['rebind'] = stats.get('rebind', 0) + 1
+    return
   k = case['kind'] + ':' + ('ok' if impl['err'] is None else impl['err'])
   stats[k] = stats.get(k, 0) + 1
   if case['kind'] == 'lit':
